@@ -16,6 +16,8 @@ func main() {
 	switch os.Args[1] {
 	case "gen":
 		cmdGen(os.Args[2:])
+	case "cases":
+		cmdCases(os.Args[2:])
 	case "calls":
 		cmdCalls(os.Args[2:])
 	default:
